@@ -4,10 +4,12 @@ import Cellml.Model.Roles
 /-! Channel C10: one history per request.
     `(C10 (ops op…))` with `op` = `(addVar "name" init|none)`, `(rmVar id)`, `(addEq tok lhs rhs bare)`, `(rmEq tok)`,
     `(graph)`, `(check)`, `(skip)`; `lhs` = `(var i)` | `(deriv s t order)` | `(other)`; `rhs` = `(n p/q)` | `(v i)` |
-    `(d s t)` | `(+ a b)` | `(- a b)` | `(* a b)` | `(/ a b)` | `(^ a n)` | `(opq node…)`.
+    `(d s t)` | `(+ a b)` | `(- a b)` | `(* a b)` | `(/ a b)` | `(^ a n)` | `(opq "id" node…)` (an uninterpreted
+    application: `id` is the printed term, the nodes are its references; `Expr.ofWire`).
     Reply: one entry per op: `ok` / `(err Class)` for a call, and for `(check)` all role queries and `get_value` of every
     variable of the model. A check reads the graph (as `get_derivatives` does), so the state goes on with the cache
-    filled and the `type` fields written. -/
+    filled and the `type` fields written. The driver knows no interpretation of the opaque terms (`Interp.none`): where
+    the value of one is needed it answers `unsupported` (its references are evaluated first, as the code does). -/
 namespace C10
 open Sexp Model
 
@@ -24,7 +26,7 @@ partial def expr? : Sexp → Option Expr
   | .list [.atom "v", i] => do some (.var (← nat? i))
   | .list [.atom "d", s, t] => do some (.deriv (← nat? s) (← nat? t))
   | .list [.atom "^", a, n] => do some (.pow (← expr? a) (← int? n))
-  | .list (.atom "opq" :: rs) => do some (.opq (← rs.mapM node?))
+  | .list (.atom "opq" :: .str id :: rs) => do some (Expr.ofWire id (← rs.mapM node?))
   | .list [.atom o, a, b] => do some (.bin (← binOp? o) (← expr? a) (← expr? b))
   | _ => none
 
@@ -44,7 +46,7 @@ abbrev Table := List (Nat × Eqn × Expr)
 def rhsOf (tbl : Table) (tok : Nat) : Expr :=
   match tbl.lookup tok with
   | some (_, r) => r
-  | none => .opq []
+  | none => .opq "" []
 
 inductive Cmd | op (o : Op) | check | skip
 
@@ -101,7 +103,7 @@ def snapshot (M : RModel) : Sexp :=
     .list (.atom "is_state" :: (s.live.filter (isState M)).map ofNat),
     .list (.atom "is_const" :: (s.live.filter (isConstant M)).map ofNat),
     .list (.atom "values" :: s.live.map fun v =>
-      match getValue M v with
+      match getValue Interp.none M v with
       | .ok q => .list [ofNat v, .atom "ok", ofRat q]
       | .error e => .list [ofNat v, .atom "err", ofVErr e])]
 
